@@ -91,6 +91,8 @@ var c10Files = map[string]string{
 	// :class / :style / an ordinary attribute bound to a VARIABLE that holds a map with many entries: whatever is printed for it is printed
 	// in one order, render after render (a Go map has no order of its own)
 	"mapbound.vuego": `<div :class="cls" :style="sty" :data-m="cls">x</div><p :class="nested.cls" :title="sty">y</p><i v-for="(k, v) in cls">{{ k }}={{ v }};</i><u>{{ cls }}|{{ sty }}</u>`,
+	// a loop over a MAP whose values differ: the items come in one order, render after render (the order of the keys)
+	"mapiter.vuego": `<ul><li v-for="v in prices">{{ v }}</li></ul><ol><li v-for="(i, row) in people">{{ i }}:{{ row.name }}</li></ol><p v-for="n in byint">{{ n }}</p><i v-for="t in typed">{{ t }};</i>`,
 	"rows.vuego": `<i v-for="r in rows">{{ r.label }}|{{ r.count }};</i><b>{{ one.label }}|{{ one.count }}</b>`,
 	"leaksrc.vuego": `<template canary="CANARY-7f3a" other="x"></template><ul><li v-for="p in items"><template canary="CANARY-7f3a" pp="{{ p }}"></template>{{ p }}{{ canary }}</li></ul>` +
 		`<template include="leakcomp.vuego" :canary3="'CANARY-7f3a'"></template><div v-for="(i, p) in items"><template :canary2="'CANARY-7f3a'"></template><b>{{ canary2 }}</b></div>`,
@@ -150,6 +152,19 @@ func c10Progs() []c10Prog {
 			}
 			return map[string]any{"cls": cls, "sty": sty, "nested": map[string]any{"cls": flags}}
 		}, ""},
+		c10Prog{"mapiter", "mapiter.vuego", func() map[string]any {
+			prices := map[string]any{}
+			people := map[string]any{}
+			byint := map[int]string{}
+			typed := map[string]int{}
+			for i, k := range []string{"kiwi", "apple", "fig", "date", "cherry", "banana", "grape", "elder", "lime", "mango", "Zed", "10", "9"} {
+				prices[k] = i * 3
+				people[k] = map[string]any{"name": "N-" + k}
+				byint[100-i*7] = "v" + k
+				typed[k] = i
+			}
+			return map[string]any{"prices": prices, "people": people, "byint": byint, "typed": typed}
+		}, "<ul>\n  <li>33</li>\n  <li>36</li>\n  <li>30</li>\n  <li>3</li>\n  <li>15</li>\n  <li>12</li>\n  <li>9</li>\n  <li>21</li>\n  <li>6</li>\n  <li>18</li>\n  <li>0</li>\n  <li>24</li>\n  <li>27</li>\n</ul>\n<ol>\n  <li>0:N-10</li>\n  <li>1:N-9</li>\n  <li>2:N-Zed</li>\n  <li>3:N-apple</li>\n  <li>4:N-banana</li>\n  <li>5:N-cherry</li>\n  <li>6:N-date</li>\n  <li>7:N-elder</li>\n  <li>8:N-fig</li>\n  <li>9:N-grape</li>\n  <li>10:N-kiwi</li>\n  <li>11:N-lime</li>\n  <li>12:N-mango</li>\n</ol>\n<p>v9</p>\n<p>v10</p>\n<p>vZed</p>\n<p>vmango</p>\n<p>vlime</p>\n<p>velder</p>\n<p>vgrape</p>\n<p>vbanana</p>\n<p>vcherry</p>\n<p>vdate</p>\n<p>vfig</p>\n<p>vapple</p>\n<p>vkiwi</p>\n<i>11;</i>\n<i>12;</i>\n<i>10;</i>\n<i>1;</i>\n<i>5;</i>\n<i>4;</i>\n<i>3;</i>\n<i>7;</i>\n<i>2;</i>\n<i>6;</i>\n<i>0;</i>\n<i>8;</i>\n<i>9;</i>\n"},
 		c10Prog{"stylecache/add", "stylecache.vuego", sc("padding:1px", true), "<div style=\"color:red;margin:0;padding:1px;\">x</div>\n<p style=\"color:red;margin:0\">y</p>\n"},
 		c10Prog{"stylecache/override", "stylecache.vuego", sc("color:blue", false), "<div style=\"color:blue;margin:0;\">x</div>\n<p style=\"color:red;margin:0;display:none;\">y</p>\n"},
 		c10Prog{"stylecache/both", "stylecache.vuego", sc("margin:9px;top:1px", true), "<div style=\"color:red;margin:9px;top:1px;\">x</div>\n<p style=\"color:red;margin:0\">y</p>\n"})
